@@ -74,6 +74,37 @@ CHECKS.update({
         technique="TLA+ Query.tla (LimitOK) evaluated by TLC on recorded answers with max_limit=3 on both backends"),
 })
 
+RELAY_NOTE = ("Trusted: TLC; CPython asyncio (single-threaded FIFO loop: the recorder's log order is the real step order); SQLite and "
+              "liblmdb through the shim. Observation is by harness-side wrappers around storage.subscribe/unsubscribe/add_event/"
+              "notify_all_connected, BaseSubscription.notify and the captured subscription queue; if the repository renames these the "
+              "check fails as machinery (exit 2), it cannot silently pass. Schedules come from TLC -simulate of Relay.tla (seeded); "
+              "bounded to 2 connections, 3 sub ids, 7 filter lists, 6 events. uvicorn/falcon websocket framing is not in the loop: "
+              "web.start_client is driven directly, as purple.py does.")
+
+CHECKS.update({
+    "C13": dict(
+        cat="model_checking", ref="DESIGN.md §5 C13", note=RELAY_NOTE,
+        text=("Relay.tla (one action per non-suspending stretch of the handler, query, notify and sender tasks) is model-checked by TLC "
+              "for C13_OneEose, C13_SubLimit, C13_OnlyRegisteredGens, C13_RegisteredIsLive, C13_StoredBeforeEose, "
+              "C13_NoStoredAfterCancel, C13_RefusedKeepsOthers (MC_Relay, both backends). TLC-simulated behaviours are replayed as "
+              "client schedules on web.start_client for two connections over both backends; the recorder's totally ordered log "
+              "(Req/Close/Submit/FanOut/Accept/Notify/QPut/Send/Drop/Idle) is validated line by line against the Relay actions, every "
+              "property body is evaluated on every step, and at every Idle line nothing may be pending (every REQ answered by EOSE or "
+              "NOTICE, every query task finished)."),
+        technique="TLA+ Relay.tla model-checked by TLC; TLC-simulated schedules replayed on web.start_client; ordered logs validated by TLC (Relay_Trace.tla)"),
+    "C05": dict(
+        cat="model_checking", ref="DESIGN.md §5 C05", note=RELAY_NOTE,
+        text=("C05_FanOutExact (a fan-out creates exactly one notify task per subscription registered at that instant), "
+              "C05_LiveMatchAgrees (a task pushes iff the event matches the filters of the Subscription object it was created for: must "
+              "when strictly inside the window, must not when not even loosely matching - the same Matches operator that judges stored "
+              "answers), C05_PushOnlyByNotify and C05_EventuallyDelivered (nothing pending at Idle) are model-checked on Relay.tla and "
+              "evaluated by TLC on every step of every recorded multi-connection execution on both backends."),
+        technique="TLA+ Relay.tla model-checked by TLC; TLC-simulated schedules replayed on web.start_client; ordered logs validated by TLC (Relay_Trace.tla)"),
+})
+CHECKS["C06"]["text"] += (" At connection level (Relay.tla) C06_OkMatchesOutcome is checked on every recorded execution: exactly one OK "
+                          "per EVENT, written after add_event returned, TRUE iff the event was handed to the fan-out.")
+CHECKS["C06"]["technique"] += "; plus Relay.tla trace validation of the OK frames"
+
 NOT_YET = {}
 
 
